@@ -1,11 +1,13 @@
 (* C11 - Exact arithmetic: outcomes invariant under vote scaling, even beyond 2^53.
    Property theorems only.  Models: Model/GetNBest.v, Model/HighestAverages.v, Model/Condorcet.v,
-   Model/QuotaDistributor.v; proofs: Proofs/Scale_proofs.v, Proofs/Minimax_proofs.v, Proofs/LRScale_proofs.v.  All numbers are unbounded Z / Q: the statements quantify over
+   Model/QuotaDistributor.v, Model/STV.v; proofs: Proofs/Scale_proofs.v, Proofs/Minimax_proofs.v, Proofs/LRScale_proofs.v,
+   Proofs/STVScale_proofs.v.  All numbers are unbounded Z / Q: the statements quantify over
    every positive scale factor and every magnitude (10^30 and 2^53 are not special). *)
 From Coq Require Import ZArith QArith List Bool.
 From VL Require Import Prelude.PyDict Model.GetNBest Model.HighestAverages Model.Condorcet
      Proofs.GetNBest_proofs Proofs.QOrd Proofs.Scale_proofs Proofs.Minimax_proofs Proofs.LRScale_proofs
      Model.Quota Model.QuotaDistributor.
+From VL Require Model.Convert Model.STV Proofs.STVScale_proofs.
 Import ListNotations.
 
 (* plurality / every rule that ends in get_n_best of exact totals *)
@@ -76,6 +78,80 @@ Proof.
   exact (Hne H).
 Qed.
 
+(* the transferable-vote count (Model/STV.v: initial allocation with shared first ranks, election by quota,
+   Gregory surplus subtraction, transfers, eliminations, the unchanged-allocation stop) with a homogeneous quota
+   function - Hare, Hagenbach-Bischoff - or no quota at all (TransferableVoteSelector).  The run on the k-fold
+   votes elects the same seats, stops the same way, and its per-count records are the scaled ones: the same
+   elected lists, the same keys in the same order, every total multiplied by k.  Droop and the rounded quotas
+   are not homogeneous and are out of scope: C11_stv_droop_not_scale_free. *)
+Definition C11_stv_trace_scaled (k : Q) (t t' : STV.trace) : Prop :=
+  STV.t_seats t' = STV.t_seats t /\ STV.t_stop t' = STV.t_stop t /\
+  Forall2 (fun x y : list (option C * Q) * list (C * Z) =>
+             Forall2 (fun p p' : option C * Q => fst p = fst p' /\ (snd p' == k * snd p)%Q) (fst x) (fst y)
+             /\ snd y = snd x)
+          (STV.t_counts t) (STV.t_counts t').
+
+Definition C11_stv_scale_votes (k : Q) (votes : list (STV.ballot * Q)) : list (STV.ballot * Q) :=
+  map (fun bw => (fst bw, (k * snd bw)%Q)) votes.
+
+Theorem C11_scale_stv_homogeneous : forall (k : Q) (cf : STV.cfg) votes n_seats prev caps, (0 < k)%Q ->
+  (forall qf, STV.c_quota cf = Some qf -> forall v v' n, (v' == k * v)%Q -> (qf v' n == k * qf v n)%Q) ->
+  C11_stv_trace_scaled k (STV.stv cf votes n_seats prev caps)
+                         (STV.stv cf (C11_stv_scale_votes k votes) n_seats prev caps).
+Proof. intros k cf votes n prev caps Hk Hh. exact (STVScale_proofs.stv_scale k Hk cf votes n prev caps Hh). Qed.
+
+Theorem C11_scale_stv : forall (k : Q) (quota : option (Q -> Z -> Q)) accept_equal mandatory step votes n_seats prev caps,
+  (0 < k)%Q -> quota = None \/ quota = Some hare \/ quota = Some hagenbach_bischoff ->
+  C11_stv_trace_scaled k (STV.stv (STV.Build_cfg quota accept_equal mandatory step) votes n_seats prev caps)
+                         (STV.stv (STV.Build_cfg quota accept_equal mandatory step) (C11_stv_scale_votes k votes) n_seats prev caps).
+Proof.
+  intros k quota ae ma st votes n prev caps Hk Hq. apply (STVScale_proofs.stv_scale k Hk).
+  destruct Hq as [->|[->| ->]];
+    [apply STVScale_proofs.homog_none|apply STVScale_proofs.homog_hare|apply STVScale_proofs.homog_hb].
+Qed.
+
+Corollary C11_scale_stv_seats : forall (k : Q) (quota : option (Q -> Z -> Q)) accept_equal mandatory step votes n_seats prev caps,
+  (0 < k)%Q -> quota = None \/ quota = Some hare \/ quota = Some hagenbach_bischoff ->
+  STV.t_seats (STV.stv (STV.Build_cfg quota accept_equal mandatory step) (C11_stv_scale_votes k votes) n_seats prev caps)
+  = STV.t_seats (STV.stv (STV.Build_cfg quota accept_equal mandatory step) votes n_seats prev caps) /\
+  STV.t_stop (STV.stv (STV.Build_cfg quota accept_equal mandatory step) (C11_stv_scale_votes k votes) n_seats prev caps)
+  = STV.t_stop (STV.stv (STV.Build_cfg quota accept_equal mandatory step) votes n_seats prev caps).
+Proof.
+  intros k quota ae ma st votes n prev caps Hk Hq.
+  destruct (C11_scale_stv k quota ae ma st votes n prev caps Hk Hq) as (H1 & H2 & _). split; assumption.
+Qed.
+
+(* the Droop quota floor(v / (s + 1)) + 1 is not homogeneous, and the count with it is genuinely not scale-free,
+   already for the integer factor 2 on integer ballot weights: D>C>A 3, B>A 4, A>{D,B}>C 2, B 1, two seats.
+   droop 10 2 = 4 leaves B a surplus of 1 (a fifth of its 5 votes), droop 20 2 = 7 a surplus of 3 (three tenths):
+   both counts complete, electing {B, D} and {B, A} (the implementation returns the same two results) *)
+Theorem C11_stv_droop_not_scale_free : exists votes,
+  let t := STV.stv (STV.Build_cfg (Some droop) true false (-1)) votes 2 [] [] in
+  let t' := STV.stv (STV.Build_cfg (Some droop) true false (-1)) (C11_stv_scale_votes 2 votes) 2 [] [] in
+  STV.t_stop t = None /\ STV.t_stop t' = None /\
+  STV.t_seats t = [(2%positive, 1%Z); (4%positive, 1%Z)] /\ STV.t_seats t' = [(2%positive, 1%Z); (1%positive, 1%Z)].
+Proof.
+  exists [([Convert.IP 4%positive; Convert.IP 3%positive; Convert.IP 1%positive], 3%Q);
+          ([Convert.IP 2%positive; Convert.IP 1%positive], 4%Q);
+          ([Convert.IP 1%positive; Convert.IS [4%positive; 2%positive]; Convert.IP 3%positive], 2%Q);
+          ([Convert.IP 2%positive], 1%Q)].
+  vm_compute. repeat split; reflexivity.
+Qed.
+
+(* non-vacuity: a Hagenbach-Bischoff count over shared ranks and fractional weights with two quota elections,
+   Gregory transfers and two eliminations, on votes scaled by (10^30 + 7) / 3 *)
+Definition C11_stv_example_votes : list (STV.ballot * Q) :=
+  let a := 1%positive in let b := 2%positive in let c := 3%positive in let d := 4%positive in
+  [([Convert.IP a; Convert.IP b; Convert.IP c], 10); ([Convert.IP b; Convert.IP c], 4);
+   ([Convert.IS [b; c]; Convert.IP d], 3); ([Convert.IP c; Convert.IP d], 3 # 2);
+   ([Convert.IP d; Convert.IS [a; c]], 5); ([Convert.IP d], 1 # 3)]%Q.
+Example C11_stv_example :
+  let t := STV.stv (STV.Build_cfg (Some hagenbach_bischoff) false false (-1))
+                   (C11_stv_scale_votes (1000000000000000000000000000007 # 3) C11_stv_example_votes) 3 [] [] in
+  STV.t_seats t = [(1%positive, 1%Z); (4%positive, 1%Z); (2%positive, 1%Z)] /\ STV.t_stop t = None /\
+  map snd (STV.t_counts t) = [[(1%positive, 1%Z)]; []; [(4%positive, 1%Z)]; []; []; [(2%positive, 1%Z)]].
+Proof. vm_compute. repeat split; reflexivity. Qed.
+
 (* clauses not yet proved for all inputs (decided per explored case by the metamorphic stream) *)
 Definition C11_scale_full_statement : Prop :=
   forall (k : Z) v n, (0 < k)%Z ->
@@ -100,3 +176,7 @@ Print Assumptions C11_scale_quota_distributor.
 Print Assumptions C11_scale_largest_remainder.
 Print Assumptions C11_tie_exact.
 Print Assumptions C11_one_vote_apart.
+Print Assumptions C11_scale_stv_homogeneous.
+Print Assumptions C11_scale_stv.
+Print Assumptions C11_scale_stv_seats.
+Print Assumptions C11_stv_droop_not_scale_free.
